@@ -102,7 +102,7 @@ def oracle(case, out):
         steps = [e for e in evs if e["p"] == "o"]
         if len(steps) != len(ops):
             return ("behavior:handler-count", "message %d: %d switch calls recorded, %d scripted" % (i, len(steps), len(ops)), {"message": i})
-        for op, e in zip(ops, steps):
+        for op in ops:
             if op["k"] == "B":
                 S = [op["b"]]
             elif op["k"] == "S":
@@ -111,13 +111,7 @@ def oracle(case, out):
                 S = S[1:]
             else:
                 S = [0]
-            wpk = S[0] if S else -1
-            if e["pk"] != wpk or e["l"] != len(S):
-                return ("behavior:stack-after-switch", "message %d after %s(%d): top=%d len=%d, the stack model predicts top=%d len=%d" %
-                        (i, OPS[op["k"]], op["b"], e["pk"], e["l"], wpk, len(S)), {"message": i, "op": op})
-    wpk = S[0] if S else -1
-    if out["final_peek"] != wpk or out["final_len"] != len(S):
-        return ("behavior:stack-after-switch", "final stack top=%d len=%d, the stack model predicts top=%d len=%d" % (out["final_peek"], out["final_len"], wpk, len(S)), {})
+    # Peek()/Len() after each call are internal state: compared with the Coq model (tie), not judged here
     return None
 
 
@@ -157,6 +151,7 @@ def coq_cases(cases, outs):
         items.append("(%d, %s, %s, (%s, %d%%Z))" % (c["id"], msgs, obs, coq_opt(o["final_peek"]), o["final_len"]))
     return """From Coq Require Import List ZArith Bool Arith. Import ListNotations.
 From GV Require Import C14.Model.
+Open Scope nat_scope.
 Definition onat_eqb (a b : option nat) : bool :=
   match a, b with Some x, Some y => Nat.eqb x y | None, None => true | _, _ => false end.
 Definition obs_eqb (a b : obs) : bool := onat_eqb (fst a) (fst b) && Z.eqb (snd a) (snd b).
@@ -187,7 +182,9 @@ def run(ctx):
     outp = os.path.join(ctx.work, "c14_out.jsonl")
     if os.path.exists(outp):
         os.remove(outp)
+    ctx.log("running %d cases on real actors" % len(cases))
     rc, out = ctx.go_test("actor", "^TestVerifC14", ["zz_verif_C14_test.go"])
+    ctx.log("go harness done rc=%d" % rc)
     outs = read_jsonl(outp)
     if rc != 0 or len(outs) != len(cases):
         ctx.tie_broken("go-harness actor behaviours (TestVerifC14)", out)
@@ -231,6 +228,7 @@ def run(ctx):
                 ctx.tie_broken("model-vs-implementation C14/Model.v run_obs vs real actors",
                                {"mismatching_cases": mism, "first_ids": ids, "first_case": first, "observed": by_id.get(first["id"]) if first else None})
 
+    ctx.log("model comparison done, mismatches=%s" % mism)
     # ---- the theorems
     if not ctx.coq_property():
         if not any(f.kind == "violation" for f in ctx.findings):
